@@ -41,6 +41,7 @@ func checkC12(c *Ctx) {
 	}
 	c.ackAcceptsTypes()
 	c.waitAcceptsRequests()
+	c.completionCallsTestTheFunc()
 	c.terminalTables()
 	c.releaseLoopContract("C12")
 	c.queueIndexRules()
